@@ -811,16 +811,26 @@ class Interp:
     def e_BoolOp(self, e, env):
         if getattr(self.ctx, "pure", 0):
             # inside a quantified (generator) expression: no forking; operands are side-effect free boolean tests
+            # a later operand is evaluated only when the earlier ones did not decide: it sees them as assumptions
             terms = []
-            for x in e.values:
-                v = self.eval(x, env)
-                t = self.truth_term(v)
-                c = t if isinstance(t, bool) else conc(t)
-                if isinstance(e.op, ast.And) and c is False:
-                    return False
-                if isinstance(e.op, ast.Or) and c is True:
-                    return True
-                terms.append(t)
+            pushed = 0
+            try:
+                for x in e.values:
+                    v = self.eval(x, env)
+                    t = self.truth_term(v)
+                    c = t if isinstance(t, bool) else conc(t)
+                    if isinstance(e.op, ast.And) and c is False:
+                        return False
+                    if isinstance(e.op, ast.Or) and c is True:
+                        return True
+                    terms.append(t)
+                    if c is None:
+                        self.ctx.solver.push()
+                        pushed += 1
+                        self.ctx.solver.add(zbool(t) if isinstance(e.op, ast.And) else z3.Not(zbool(t)))
+            finally:
+                for _ in range(pushed):
+                    self.ctx.solver.pop()
             return And(*terms) if isinstance(e.op, ast.And) else Or(*terms)
         if isinstance(e.op, ast.And):
             v = True
